@@ -15,13 +15,15 @@ import (
 // run (17554 + 17556) and the emitted 160x144 RGBA frame is mapped back to shade indices.
 //
 // ops:  reset                                   default registers (as ppu.New), VRAM and OAM zero   -> ok
-//       scene <seed hex> <flags hex>            derive the whole scene from the seed (generator below,
-//                                               defined identically in lean/Tetro/Drv/Scene.lean)   -> ok ; <scene hash>
-//       regs <lcdc scx scy wx wy bgp obp0 obp1> eight hex bytes                                      -> ok
-//       vram <addr hex 8000..9fff> <hex bytes>  poke tile data / maps                                -> ok
-//       oam <offset hex 00..9f> <hex bytes>     poke OAM                                             -> ok
-//       render                                  load + run two frames                                -> ok ; <frame hash>   | crash
-//       line <y>                                one screen line of the rendered frame, 2 bits per pixel, 80 hex digits
+//
+//	scene <seed hex> <flags hex>            derive the whole scene from the seed (generator below,
+//	                                        defined identically in lean/Tetro/Drv/Scene.lean)   -> ok ; <scene hash>
+//	regs <lcdc scx scy wx wy bgp obp0 obp1> eight hex bytes                                      -> ok
+//	vram <addr hex 8000..9fff> <hex bytes>  poke tile data / maps                                -> ok
+//	oam <offset hex 00..9f> <hex bytes>     poke OAM                                             -> ok
+//	render                                  load + run two frames                                -> ok ; <frame hash>   | crash
+//	line <y>                                one screen line of the rendered frame, 2 bits per pixel, 80 hex digits
+//
 // out of `line`:  "<pixels> ; <pixels>" when the line meets the restrictions of property C15 (the model side
 // prints the SPECIFICATION's pixels in the first part and the code model's frame in the second), otherwise
 // "- ; <pixels>" (only model-vs-code agreement is checked).
